@@ -209,6 +209,21 @@ func (r *Run) Violate(key, desc string, replay any) {
 		desc = desc[:1500] + "…"
 	}
 	r.vio[key] = &Violation{Key: key, Desc: desc, Replay: path, Count: 1}
+	// keep a partial result on disk: if the monitor is killed later (hang, fatal error), what it had already
+	// witnessed is not lost
+	if r.out != "" {
+		var vs []Violation
+		for _, v := range r.vio {
+			vs = append(vs, *v)
+		}
+		sort.Slice(vs, func(i, j int) bool { return vs[i].Key < vs[j].Key })
+		if pb, err := json.Marshal(map[string]any{"property": r.res.Property, "mode": r.res.Mode, "partial": true, "violations": vs}); err == nil {
+			tmp := r.out + ".partial.tmp"
+			if os.WriteFile(tmp, pb, 0o644) == nil {
+				_ = os.Rename(tmp, r.out+".partial")
+			}
+		}
+	}
 }
 
 // Violations returns the number of distinct violation keys so far.
